@@ -203,6 +203,7 @@ class Lemma(object):
     """a harness executed symbolically using the callees' contracts (or inlined bodies)"""
 
     def __init__(self, name, fn, props=(), inline=()):
+        self.concrete = None            # optional (tier, seed) -> {obligation: (LemmaWitness, shown args, observed)}
         self.name = name
         self.fn = fn
         self.props = list(props)
